@@ -52,7 +52,7 @@ func c12Specs() []*edt.Spec {
 					return ""
 				}
 				R := "CompressedRistretto.SetRistrettoPoint(RistrettoPoint.MulBasepoint(@curve.RISTRETTO_BASEPOINT_TABLE, WIT))"
-				want := "&new(agg(.rCompressed=(" + R + "), .s=(Scalar.Add(Scalar.Mul(" + srChallenge("TR", R) + ", $kp.sk.key), WIT)))) ; nil"
+				want := "&new(agg(.rCompressed=(" + R + "), .s=(Scalar.Add(Scalar.Mul($kp.sk.key, " + srChallenge("TR", R) + "), WIT)))) ; nil"
 				if out != want {
 					return fmt.Sprintf("signing does not follow schnorrkel (proto-name, sign:pk, witness \"signing\" keyed with the nonce seed and the rng, sign:R, challenge sign:c, s = c·key + r):\n      got  %s\n      want %s", clip(out, 900), want)
 				}
